@@ -57,3 +57,121 @@ Proof.
   unfold hdi_cost_q, hdi_cost.
   repeat (rewrite ?Q2R_plus, ?Q2R_mult, ?Q2R_minus). reflexivity.
 Qed.
+
+(* ---- quantitative versions: how far the returned interval can be from the property,
+   given the value of the cost, and what a restricted search can reach ---- *)
+Lemma sqr_le_abs x e : 0 <= e -> x * x <= e * e -> Rabs x <= e.
+Proof. intros He H. apply Rabs_le. split; nra. Qed.
+
+Lemma abs_le_sqr x e : Rabs x <= e -> x * x <= e * e.
+Proof.
+  intros H. assert (H0 := Rabs_pos x).
+  unfold Rabs in *. destruct (Rcase_abs x); nra.
+Qed.
+
+(* a cost of at most e^2 forces the enclosed probability within e of f and the weighted
+   end-density mismatch within e *)
+Theorem hdi_cost_small_bounds w Pa Pb Fa Fb f e : 0 <= e ->
+  hdi_cost w Pa Pb Fa Fb f <= e * e ->
+  Rabs (Fb - Fa - f) <= e /\ Rabs (w * (Pa - Pb)) <= e.
+Proof.
+  intros He H. unfold hdi_cost in H.
+  assert (H1 := Rle_0_sqr (w * (Pa - Pb))). assert (H2 := Rle_0_sqr (Fb - Fa - f)).
+  unfold Rsqr in *. split; apply sqr_le_abs; lra.
+Qed.
+
+(* if the interval cannot hold more than M <= f, the cost is at least (f - M)^2 *)
+Theorem hdi_cost_mass_lower w Pa Pb Fa Fb f M : Fb - Fa <= M -> M <= f ->
+  (f - M) * (f - M) <= hdi_cost w Pa Pb Fa Fb f.
+Proof.
+  intros H1 H2. unfold hdi_cost.
+  assert (H := Rle_0_sqr (w * (Pa - Pb))). unfold Rsqr in H. nra.
+Qed.
+
+(* a search confined to intervals inside [lo, hi] (e.g. the range of the sample) *)
+Theorem confined_interval_mass F lo hi c w : nondecreasing F ->
+  lo <= c - w / 2 -> c + w / 2 <= hi -> interval_mass F c w <= F hi - F lo.
+Proof.
+  intros HF H1 H2. unfold interval_mass.
+  assert (A := HF _ _ H1). assert (B := HF _ _ H2). lra.
+Qed.
+
+(* a search whose width is limited to R (e.g. bounds (0, max - min) on the width):
+   no candidate holds more than the best window of width R *)
+Theorem width_limited_interval_mass F R M c w : nondecreasing F ->
+  (forall x, F (x + R) - F x <= M) -> w <= R -> interval_mass F c w <= M.
+Proof.
+  intros HF HM Hw. unfold interval_mass.
+  assert (A : F (c + w / 2) <= F (c - w / 2 + R)) by (apply HF; lra).
+  specialize (HM (c - w / 2)). lra.
+Qed.
+
+(* whatever the restriction, if no admissible candidate holds more than M < f then every
+   admissible candidate has cost >= (f - M)^2 > 0 and misses the fraction by >= f - M:
+   a restricted search cannot return an interval with the property *)
+Theorem restricted_search_misses (region : R -> R -> Prop) P F wt f M :
+  (forall c w, region c w -> interval_mass F c w <= M) -> M < f ->
+  forall c w, region c w ->
+    (f - M) * (f - M) <= interval_cost P F wt f c w /\ 0 < (f - M) * (f - M) /\
+    f - M <= f - interval_mass F c w.
+Proof.
+  intros Hreg HM c w Hin. specialize (Hreg c w Hin). unfold interval_mass in Hreg.
+  split; [|split].
+  - unfold interval_cost. apply hdi_cost_mass_lower; lra.
+  - nra.
+  - unfold interval_mass. lra.
+Qed.
+
+Corollary width_limited_search_misses P F wt f R M : nondecreasing F ->
+  (forall x, F (x + R) - F x <= M) -> M < f ->
+  forall c w, w <= R ->
+    (f - M) * (f - M) <= interval_cost P F wt f c w /\ f - M <= f - interval_mass F c w.
+Proof.
+  intros HF HM Hf c w Hw.
+  destruct (restricted_search_misses (fun _ w' => w' <= R) P F wt f M) with (c := c) (w := w) as [A [_ B]];
+    try assumption.
+  - intros c' w' Hw'. apply (width_limited_interval_mass F R M); assumption.
+  - split; assumption.
+Qed.
+
+(* ---- the executable judgement of a returned interval is sound ---- *)
+Lemma within_Rabs a b t : within a b t = true -> Rabs (Q2R a - Q2R b) <= Q2R t.
+Proof.
+  unfold within. intros H. apply Qle_bool_iff in H. apply Qabs.Qabs_Qle_condition in H.
+  destruct H as [H1 H2]. apply Qle_Rle in H1, H2.
+  rewrite Q2R_opp in H1. rewrite Q2R_minus in H1, H2. apply Rabs_le. lra.
+Qed.
+
+Lemma bit_zero k ok : bit k ok = 0%nat -> ok = true.
+Proof.
+  unfold bit. destruct ok; [reflexivity|]. intros H. exfalso.
+  assert (Hp : Nat.pow 2 k <> 0%nat) by (apply Nat.pow_nonzero; discriminate). contradiction.
+Qed.
+
+Theorem check_interval_sound wt Pa Pb Fa Fb f cost probes tt tl te rt ab :
+  check_interval wt Pa Pb Fa Fb f cost probes tt tl te rt ab = 0%nat ->
+  Rabs (Q2R Fb - Q2R Fa - Q2R f) <= Q2R tl /\
+  Rabs (Q2R wt * (Q2R Pa - Q2R Pb)) <= Q2R te /\
+  hdi_cost (Q2R wt) (Q2R Pa) (Q2R Pb) (Q2R Fa) (Q2R Fb) (Q2R f) <= Q2R tl * Q2R tl + Q2R te * Q2R te.
+Proof.
+  unfold check_interval. intros H.
+  apply Nat.eq_add_0 in H. destruct H as [H H3].
+  apply Nat.eq_add_0 in H. destruct H as [H H2].
+  apply Nat.eq_add_0 in H. destruct H as [H0 H1].
+  apply bit_zero in H0, H2.
+  apply within_Rabs in H0, H2.
+  rewrite Q2R_minus in H0. rewrite Q2R_mult, Q2R_minus in H2.
+  replace (Q2R 0) with 0 in H2 by (unfold Q2R; simpl; lra).
+  rewrite Rminus_0_r in H2.
+  split; [exact H0|]. split; [exact H2|].
+  unfold hdi_cost. apply abs_le_sqr in H0, H2. lra.
+Qed.
+
+(* and it rejects what the property rejects: an enclosed probability further than
+   tol_loose from f always sets a bit *)
+Theorem check_interval_complete_mass wt Pa Pb Fa Fb f cost probes tt tl te rt ab :
+  Q2R tl < Rabs (Q2R Fb - Q2R Fa - Q2R f) ->
+  check_interval wt Pa Pb Fa Fb f cost probes tt tl te rt ab <> 0%nat.
+Proof.
+  intros H E. apply check_interval_sound in E. lra.
+Qed.
